@@ -319,7 +319,16 @@ func (ts *TestServer) run(hs *HandlerScript, h *hIO, method string) (ret error) 
 			}
 		case "sethdr", "sendhdr", "settrl":
 			f := map[string]func(metadata.MD) error{"sethdr": h.setHdr, "sendhdr": h.sendHdr, "settrl": h.setTrl}[op.K]
-			err := f(op.MD.Copy())
+			own := op.MD.Copy()
+			err := f(own)
+			// like real handlers may (grpc-go copies), the script goes on using its own map
+			for k, v := range own {
+				for i := range v {
+					v[i] = "overwritten-after-" + op.K
+				}
+				own[k] = append(v, "appended-after-"+op.K)
+			}
+			own["added-after"] = []string{op.K}
 			em, ec := errFields(err)
 			w.Log(Event{Actor: actor, Op: op.K, Idx: i, Err: em, Code: ec, Detail: mdString(op.MD)})
 		case "sleep":
@@ -594,6 +603,18 @@ func (w *World) RunCall(conn grpc.ClientConnInterface, spec *CallSpec) {
 			w.Log(Event{Actor: actor, Op: "cancel"})
 		case "sleep":
 			w.Sleep(op.D)
+		case "waitrecv":
+			// wait until the handler has received op.Size messages and everything that caused
+			// (window updates) has been digested
+			w.WaitUntil("c:waitrecv", func() bool {
+				n := 0
+				for _, e := range w.Events {
+					if e.Actor == "handler:"+spec.ID && e.Op == "recv" && e.OK() {
+						n++
+					}
+				}
+				return (n >= op.Size && w.RecvLoopsIdle()) || ctx.Err() != nil
+			})
 		case "waitdone":
 			// wait until the RPC has been finished from the other side (its context is done)
 			w.WaitUntil("c:waitdone", func() bool { return cs.Context().Err() != nil })
